@@ -19,8 +19,9 @@ const (
 )
 
 type lat struct {
-	k kind
-	v constant.Value // for cst scalar
+	k    kind
+	nilc bool           // the nil constant of a pointer/interface/slice/map/chan/func type
+	v    constant.Value // for cst scalar
 	// symbolic refs into constant tables
 	tbl  *constTable // non-nil: value is the table slice (or element address when elem>=0)
 	elem int         // -1: the slice itself
@@ -38,8 +39,17 @@ func (a lat) eq(b lat) bool {
 	if a.k != cst {
 		return true
 	}
+	if a.nilc || b.nilc {
+		return a.nilc && b.nilc
+	}
 	if a.tbl != nil || b.tbl != nil {
 		return a.tbl == b.tbl && a.elem == b.elem
+	}
+	if a.v == nil || b.v == nil {
+		return a.v == nil && b.v == nil
+	}
+	if a.v.Kind() == constant.Unknown || b.v.Kind() == constant.Unknown {
+		return false
 	}
 	return constant.Compare(a.v, token.EQL, b.v)
 }
@@ -64,6 +74,9 @@ type Result struct {
 	Fn      *ssa.Function
 	Exec    map[*ssa.BasicBlock]bool
 	Edge    map[[2]int]bool // executable CFG edges (from.Index, to.Index)
+	// when this result describes a callee reached by delegation (`return f(args...)`): terms of the arguments per parameter
+	Subst map[ssa.Value]aff
+	SSub  map[ssa.Value]string
 	Val     map[ssa.Value]lat
 	Returns []*ssa.Return
 	Steps   int
@@ -78,6 +91,8 @@ type sccp struct {
 	ssaWL    []ssa.Instruction
 	tables   map[*ssa.Global]*constTable
 	bound    map[ssa.Value]bool
+	tuple    map[ssa.Value][]lat // per-index lattice of tuple-valued in-package calls
+	depth    int
 	steps    int
 }
 
@@ -88,7 +103,14 @@ type sccp struct {
 // for the abstract values and no path is enumerated: this is partial
 // evaluation over the finite discriminant domain chosen by the caller.
 func Specialize(fn *ssa.Function, bind map[ssa.Value]constant.Value, tables map[*ssa.Global]*constTable) *Result {
-	s := &sccp{fn: fn, val: map[ssa.Value]lat{}, execEdge: map[[2]int]bool{}, execBlk: map[*ssa.BasicBlock]bool{}, tables: tables, bound: map[ssa.Value]bool{}}
+	return specializeAt(fn, bind, tables, 0)
+}
+
+// maxInline bounds the depth of interprocedural (in-package, non-recursive) evaluation.
+const maxInline = 3
+
+func specializeAt(fn *ssa.Function, bind map[ssa.Value]constant.Value, tables map[*ssa.Global]*constTable, depth int) *Result {
+	s := &sccp{depth: depth, tuple: map[ssa.Value][]lat{}, fn: fn, val: map[ssa.Value]lat{}, execEdge: map[[2]int]bool{}, execBlk: map[*ssa.BasicBlock]bool{}, tables: tables, bound: map[ssa.Value]bool{}}
 	for _, p := range fn.Params {
 		s.val[p] = lat{k: top}
 	}
@@ -158,7 +180,7 @@ func (s *sccp) get(v ssa.Value) lat {
 					return lat{k: cst, v: constant.MakeInt64(0), elem: -1}
 				}
 			}
-			return lat{k: cst, v: constant.MakeUnknown(), elem: -1} // nil marker
+			return lat{k: cst, nilc: true, elem: -1} // nil marker
 		}
 		return lat{k: cst, v: c.Value, elem: -1}
 	case *ssa.Global:
@@ -207,7 +229,7 @@ func (s *sccp) visitInstr(in ssa.Instruction) {
 		s.set(x, s.unop(x))
 	case *ssa.Convert:
 		a := s.get(x.X)
-		if a.k == cst && a.tbl == nil {
+		if a.k == cst && a.tbl == nil && !a.nilc && a.v != nil {
 			if r, ok := convertConst(a.v, x.X.Type(), x.Type()); ok {
 				s.set(x, lat{k: cst, v: r, elem: -1})
 				return
@@ -247,9 +269,86 @@ func (s *sccp) visitInstr(in ssa.Instruction) {
 	case *ssa.Jump:
 		s.flowWL = append(s.flowWL, [2]*ssa.BasicBlock{x.Block(), x.Block().Succs[0]})
 	case *ssa.Return, *ssa.Panic, *ssa.Store, *ssa.MapUpdate, *ssa.Send, *ssa.RunDefers, *ssa.Defer, *ssa.Go, *ssa.DebugRef:
+	case *ssa.Call:
+		s.visitCall(x)
+	case *ssa.Extract:
+		if tl, ok := s.tuple[x.Tuple]; ok && x.Index < len(tl) {
+			s.set(x, tl[x.Index])
+			return
+		}
+		if s.get(x.Tuple).k == bot {
+			return
+		}
+		s.set(x, lat{k: top})
 	default:
 		if v, ok := in.(ssa.Value); ok {
 			s.set(v, lat{k: top})
+		}
+	}
+}
+
+// visitCall evaluates calls of in-package functions with constant arguments by specialising the callee
+// (bounded depth, no recursion); every other call is TOP.
+func (s *sccp) visitCall(x *ssa.Call) {
+	cal := x.Common().StaticCallee()
+	if cal == nil || cal.Blocks == nil || cal.Pkg == nil || cal.Pkg != s.fn.Pkg || cal == s.fn || s.depth >= maxInline || x.Common().IsInvoke() {
+		s.set(x, lat{k: top})
+		return
+	}
+	bind := map[ssa.Value]constant.Value{}
+	for i, a := range x.Common().Args {
+		if i >= len(cal.Params) {
+			break
+		}
+		l := s.get(a)
+		if l.k == bot {
+			return // wait for the argument
+		}
+		if l.k == cst && !l.nilc && l.tbl == nil && l.v != nil && l.v.Kind() != constant.Unknown {
+			bind[cal.Params[i]] = l.v
+		}
+	}
+	if len(bind) == 0 {
+		s.set(x, lat{k: top})
+		return
+	}
+	sub := specializeAt(cal, bind, s.tables, s.depth+1)
+	s.steps += sub.Steps
+	n := cal.Signature.Results().Len()
+	if n == 0 {
+		s.set(x, lat{k: top})
+		return
+	}
+	res := make([]lat, n)
+	for _, ret := range sub.Returns {
+		for i := 0; i < n && i < len(ret.Results); i++ {
+			res[i] = meet(res[i], sub.get(ret.Results[i]))
+		}
+	}
+	for i := range res {
+		if res[i].k == bot {
+			res[i] = lat{k: top} // no reachable return (the callee panics on this input)
+		}
+		if res[i].tbl != nil {
+			res[i] = lat{k: top}
+		}
+	}
+	if n == 1 {
+		s.set(x, res[0])
+		return
+	}
+	old := s.tuple[x]
+	same := old != nil
+	for i := range res {
+		if old == nil || !(old[i].k == res[i].k && old[i].eq(res[i])) {
+			same = false
+		}
+	}
+	s.tuple[x] = res
+	if !same {
+		s.val[x] = lat{k: top}
+		if refs := x.Referrers(); refs != nil {
+			s.ssaWL = append(s.ssaWL, *refs...)
 		}
 	}
 }
@@ -272,7 +371,10 @@ func (s *sccp) unop(x *ssa.UnOp) lat {
 		return lat{k: top}
 	}
 	a := s.get(x.X)
-	if a.k != cst || a.tbl != nil {
+	if a.k != cst || a.tbl != nil || a.nilc || a.v == nil {
+		if a.k == cst {
+			return lat{k: top}
+		}
 		return lat{k: a.k}
 	}
 	switch x.Op {
@@ -297,7 +399,13 @@ func (s *sccp) binop(x *ssa.BinOp) lat {
 	if a.k == top || b.k == top || a.tbl != nil || b.tbl != nil {
 		return lat{k: top}
 	}
-	if a.v.Kind() == constant.Unknown || b.v.Kind() == constant.Unknown {
+	if a.nilc || b.nilc {
+		if a.nilc && b.nilc && (x.Op == token.EQL || x.Op == token.NEQ) {
+			return lat{k: cst, v: constant.MakeBool(x.Op == token.EQL), elem: -1}
+		}
+		return lat{k: top}
+	}
+	if a.v == nil || b.v == nil || a.v.Kind() == constant.Unknown || b.v.Kind() == constant.Unknown {
 		return lat{k: top}
 	}
 	switch x.Op {
@@ -390,11 +498,13 @@ func (r *Result) constOf(v ssa.Value) (int64, bool) {
 	return constant.Int64Val(l.v)
 }
 
+// isNil: v is the nil constant under the specialisation (syntactically, or through an in-package call that always returns nil).
 func (r *Result) isNil(v ssa.Value) bool {
 	if c, ok := v.(*ssa.Const); ok {
 		return c.Value == nil
 	}
-	return false
+	l := r.get(v)
+	return l.k == cst && l.nilc
 }
 
 func (l lat) String() string {
@@ -403,6 +513,9 @@ func (l lat) String() string {
 		return "_"
 	case top:
 		return "T"
+	}
+	if l.nilc {
+		return "nil"
 	}
 	if l.tbl != nil {
 		return "tbl:" + l.tbl.name
